@@ -3,6 +3,7 @@ package p_distlock
 import (
 	"context"
 	"fmt"
+	"github.com/acquirecloud/golibs/timeout"
 	"io"
 	"sync"
 	"sync/atomic"
@@ -21,29 +22,32 @@ import (
 
 // LeaseScenario is one generated scenario.
 type LeaseScenario struct {
-	Kind       string        `json:"kind"`                  // hold | death | unlockrace
-	LeaseMs    int           `json:"lease_ms"`              // lease period
-	Periods    int           `json:"periods,omitempty"`     // hold: duration in lease periods
-	FailCas    []int         `json:"fail_cas,omitempty"`    // hold: renewal calls (1-based) that fail transiently
-	PhasePct   int           `json:"phase_pct,omitempty"`   // death: the holder dies at this % of the lease after locking or after a renewal
-	Renewals   int           `json:"renewals,omitempty"`    // death: number of successful renewals before the death
-	After      bool          `json:"after,omitempty"`       // unlockrace: the renewal in flight is applied before Unlock runs
-	Same       bool          `json:"same,omitempty"`        // handoff: the second tenure is on the same Locker object (else on another provider's)
-	DelayPct   int           `json:"delay_pct,omitempty"`   // hold: every renewal call takes this % of the lease to reach the storage
-	Waiters    int           `json:"waiters,omitempty"`     // death: number of lockers parked in Lock() when the holder dies (default 1)
-	Wait10     int           `json:"wait10,omitempty"`      // waithold: the second locker waits this many tenths of a lease in Lock() before it gets the lock
-	OnlyExcl   bool          `json:"only_excl,omitempty"`   // waithold: judge mutual exclusion only (C01), not the stored record (C05)
-	Acquire    string        `json:"acquire,omitempty"`     // hold: "" = Lock(); "lockctx" / "trylock": acquired with a context that is cancelled right after the acquisition, on a storage that refuses done contexts
-	HoldCreate bool          `json:"hold_create,omitempty"` // relock: the Create of the second tenure is in flight while the late renewal of the first completes
-	Hold10     int           `json:"hold10,omitempty"`      // unlockfail: the lock is held this many tenths of a lease before the failing Unlock
-	Applied    bool          `json:"applied,omitempty"`     // unlockfail: the Delete is applied and only its reply is lost
-	Blocking   bool          `json:"blocking,omitempty"`    // hold: the contender tries with a blocking LockWithCtx (a tenth of a lease) instead of TryLock
-	ErrKind    int           `json:"err_kind,omitempty"`    // hold: what the failing renewal calls return: 0 a plain error, 1 wraps ErrClosed, 2 wraps ErrCommunication, 3 context.DeadlineExceeded, 4 io.ErrUnexpectedEOF, 5 wraps ErrInternal
-	InFlight   int           `json:"in_flight,omitempty"`   // unlockfail: a renewal is in flight across the Unlock: 1 held before the storage applied it, 2 after
-	FailCreate []int         `json:"fail_create,omitempty"` // hold: the contender's k-th Create fails: k > 0 request lost, k < 0 the (-k)-th is applied and its reply lost
-	Locks      int           `json:"locks,omitempty"`       // multi: number of locks one process holds
-	Stagger10  int           `json:"stagger10,omitempty"`   // multi: tenths of a lease between the acquisitions
-	Unlocks    []MultiUnlock `json:"unlocks,omitempty"`     // multi: which locks are unlocked when
+	Kind        string        `json:"kind"`                   // hold | death | unlockrace
+	LeaseMs     int           `json:"lease_ms"`               // lease period
+	Periods     int           `json:"periods,omitempty"`      // hold: duration in lease periods
+	FailCas     []int         `json:"fail_cas,omitempty"`     // hold: renewal calls (1-based) that fail transiently
+	PhasePct    int           `json:"phase_pct,omitempty"`    // death: the holder dies at this % of the lease after locking or after a renewal
+	Renewals    int           `json:"renewals,omitempty"`     // death: number of successful renewals before the death
+	After       bool          `json:"after,omitempty"`        // unlockrace: the renewal in flight is applied before Unlock runs
+	Same        bool          `json:"same,omitempty"`         // handoff: the second tenure is on the same Locker object (else on another provider's)
+	DelayPct    int           `json:"delay_pct,omitempty"`    // hold: every renewal call takes this % of the lease to reach the storage
+	Waiters     int           `json:"waiters,omitempty"`      // death: number of lockers parked in Lock() when the holder dies (default 1)
+	Wait10      int           `json:"wait10,omitempty"`       // waithold: the second locker waits this many tenths of a lease in Lock() before it gets the lock
+	OnlyExcl    bool          `json:"only_excl,omitempty"`    // waithold: judge mutual exclusion only (C01), not the stored record (C05)
+	Acquire     string        `json:"acquire,omitempty"`      // hold: "" = Lock(); "lockctx" / "trylock": acquired with a context that is cancelled right after the acquisition, on a storage that refuses done contexts
+	HoldCreate  bool          `json:"hold_create,omitempty"`  // relock: the Create of the second tenure is in flight while the late renewal of the first completes
+	Hold10      int           `json:"hold10,omitempty"`       // unlockfail: the lock is held this many tenths of a lease before the failing Unlock
+	Applied     bool          `json:"applied,omitempty"`      // unlockfail: the Delete is applied and only its reply is lost
+	Blocking    bool          `json:"blocking,omitempty"`     // hold: the contender tries with a blocking LockWithCtx (a tenth of a lease) instead of TryLock
+	Shared      int           `json:"shared,omitempty"`       // hold: a second goroutine uses the holder's Locker meanwhile: 1 = its LockWithCtx is cancelled while it waits for the token, 2 = its TryLock fails
+	Warm        int           `json:"warm,omitempty"`         // multi: this many callbacks due at once were run through the process-wide timer pool (and the pool left idle) before the first lock is taken
+	CancelFirst bool          `json:"cancel_first,omitempty"` // death: the waiter that started waiting first gives up (its context is cancelled) before the dead holder's record expires
+	ErrKind     int           `json:"err_kind,omitempty"`     // hold: what the failing renewal calls return: 0 a plain error, 1 wraps ErrClosed, 2 wraps ErrCommunication, 3 context.DeadlineExceeded, 4 io.ErrUnexpectedEOF, 5 wraps ErrInternal
+	InFlight    int           `json:"in_flight,omitempty"`    // unlockfail: a renewal is in flight across the Unlock: 1 held before the storage applied it, 2 after
+	FailCreate  []int         `json:"fail_create,omitempty"`  // hold: the contender's k-th Create fails: k > 0 request lost, k < 0 the (-k)-th is applied and its reply lost
+	Locks       int           `json:"locks,omitempty"`        // multi: number of locks one process holds
+	Stagger10   int           `json:"stagger10,omitempty"`    // multi: tenths of a lease between the acquisitions
+	Unlocks     []MultiUnlock `json:"unlocks,omitempty"`      // multi: which locks are unlocked when
 }
 
 // MultiUnlock: lock I is unlocked At10 tenths of a lease after the last acquisition.
@@ -161,6 +165,8 @@ func runLease(s LeaseScenario) (info LeaseInfo, v *vstat.Violation, exact bool) 
 		return runSharedHandoff(s)
 	case "trygate":
 		return runTryGate(s)
+	case "tryfail":
+		return runTryFail(s)
 	}
 	panic("bad scenario " + s.Kind)
 }
@@ -233,6 +239,19 @@ func runHold(s LeaseScenario) (info LeaseInfo, v *vstat.Violation, exact bool) {
 			a.Unlock()
 		}
 	}()
+	if s.Shared > 0 {
+		// another goroutine of the process tries the same Locker object while it is held, and gives up
+		go func() {
+			time.Sleep(L / 5)
+			if s.Shared == 2 {
+				a.TryLock(ctx)
+				return
+			}
+			sctx, scancel := context.WithCancel(ctx)
+			go func() { time.Sleep(L / 5); scancel() }()
+			a.LockWithCtx(sctx)
+		}()
+	}
 	end := t0.Add(time.Duration(s.Periods) * L)
 	for time.Now().Before(end) {
 		time.Sleep(L / 5)
@@ -319,6 +338,8 @@ func runDeath(s LeaseScenario) (info LeaseInfo, v *vstat.Violation, exact bool) 
 	done := make(chan res, nw)
 	bctx, cancel := context.WithTimeout(ctx, time.Duration(4+nw)*L+10*time.Second)
 	defer cancel()
+	firstCtx, firstCancel := context.WithCancel(bctx)
+	defer firstCancel()
 	var inCS atomic.Int32
 	var twoHolders atomic.Pointer[vstat.Violation]
 	for i := 0; i < nw; i++ {
@@ -327,8 +348,16 @@ func runDeath(s LeaseScenario) (info LeaseInfo, v *vstat.Violation, exact bool) 
 			bl = newProvider(gated.NewFaulty(inner), L).NewLocker("lease")
 		}
 		go func(i int) {
-			err := bl.LockWithCtx(bctx)
+			wctx := bctx
+			if i == 0 && s.CancelFirst && nw > 1 {
+				wctx = firstCtx
+			}
+			err := bl.LockWithCtx(wctx)
 			at := time.Now()
+			if i == 0 && s.CancelFirst && nw > 1 && err != nil {
+				done <- res{nil, time.Time{}} // gave up, as planned
+				return
+			}
 			if err == nil {
 				if n := inCS.Add(1); n != 1 {
 					twoHolders.CompareAndSwap(nil, vstat.V("lease:two-holders-after-death", "lease %v: after the holder died, waiter %d acquired the lock while %d other waiter(s) were holding it", L, i, n-1))
@@ -339,6 +368,9 @@ func runDeath(s LeaseScenario) (info LeaseInfo, v *vstat.Violation, exact bool) 
 			}
 			done <- res{err, at}
 		}(i)
+		if i == 0 && s.CancelFirst {
+			time.Sleep(L / 20) // this one registers its storage wait before the others
+		}
 	}
 	// wait for the requested number of successful renewals, then for the phase inside the cycle
 	deadline := time.Now().Add(time.Duration(s.Renewals+2)*L + 5*time.Second)
@@ -365,6 +397,9 @@ func runDeath(s LeaseScenario) (info LeaseInfo, v *vstat.Violation, exact bool) 
 	}
 	fa.Kill()
 	killAt := time.Now()
+	if s.CancelFirst && nw > 1 {
+		firstCancel() // the waiter that registered first leaves; the others must still see the record lapse
+	}
 	r, err := inner.Get(ctx, leaseKey)
 	if err != nil {
 		return info, vstat.V("lease:record-gone-while-held", "lease %v: at the moment of the holder's death the record is not in the storage: %v", L, err), false
@@ -376,6 +411,9 @@ func runDeath(s LeaseScenario) (info LeaseInfo, v *vstat.Violation, exact bool) 
 	for i := 0; i < nw; i++ {
 		select {
 		case got := <-done:
+			if got.at.IsZero() && got.err == nil {
+				continue // the first waiter gave up as planned
+			}
 			if got.err != nil {
 				return info, vstat.V("lease:waiter-failed", "lease %v: a waiting LockWithCtx returned %v after the holder's death", L, got.err), false
 			}
@@ -778,6 +816,14 @@ func runUnlockFail(s LeaseScenario) (info LeaseInfo, v *vstat.Violation, exact b
 	fa.FailNextDelete(s.Applied)
 	a.Unlock()
 	unlockedAt := time.Now()
+	relock := make(chan error, 1)
+	if s.Same {
+		go func() {
+			rctx, rcancel := context.WithTimeout(ctx, 2*L+2*time.Second)
+			defer rcancel()
+			relock <- a.LockWithCtx(rctx)
+		}()
+	}
 	if s.InFlight > 0 {
 		close(fa.Resume)
 		time.Sleep(L / 20) // the one attempt that was already under way completes
@@ -812,6 +858,24 @@ func runUnlockFail(s LeaseScenario) (info LeaseInfo, v *vstat.Violation, exact b
 		return info, v, true
 	}
 	info.Samples++
+	if s.Same {
+		// the same Locker locks again with a blocking call that started right after the failed Unlock: it has to get the lock
+		// once the leftover record has lapsed
+		select {
+		case err := <-relock:
+			if err != nil {
+				return info, vstat.V("lease:never-released", "lease %v: after an Unlock whose Delete failed the same Locker called LockWithCtx (budget: two leases + 2 s); it returned %v; calls:%s", L, err, describeEvents(fa.Events(), t0)), false
+			}
+		case <-time.After(2*L + 4*time.Second):
+			return info, vstat.V("lease:never-released", "lease %v: after an Unlock whose Delete failed the same Locker's LockWithCtx has not returned; calls:%s", L, describeEvents(fa.Events(), t0)), false
+		}
+		a.Unlock()
+		if !b.TryLock(ctx) {
+			return info, vstat.V("lease:not-released", "lease %v: after the second Unlock a contender's TryLock returns false", L), true
+		}
+		b.Unlock()
+		return info, nil, false
+	}
 	if !b.TryLock(ctx) {
 		_, err := inner.Get(ctx, leaseKey)
 		return info, vstat.V("lease:never-released", "lease %v: %v after Unlock (whose Delete failed), and past the expiration the record had then, a contender's TryLock returns false (record lookup: err=%v); calls:%s",
@@ -848,6 +912,16 @@ func runMulti(s LeaseScenario) (info LeaseInfo, v *vstat.Violation, exact bool) 
 	names := make([]string, s.Locks)
 	lockers := make([]interface{ Unlock() }, s.Locks)
 	held := make([]bool, s.Locks)
+	if s.Warm > 0 {
+		// give the process-wide timer pool a history: several callbacks due at once (the pool grows), then nothing (it idles)
+		var wg sync.WaitGroup
+		for i := 0; i < s.Warm; i++ {
+			wg.Add(1)
+			timeout.Call(func() { time.Sleep(3 * time.Millisecond); wg.Done() }, time.Millisecond)
+		}
+		wg.Wait()
+		time.Sleep(20 * time.Millisecond)
+	}
 	t0 := time.Now()
 	for i := range names {
 		names[i] = fmt.Sprintf("multi%d", i)
@@ -1050,6 +1124,58 @@ func runTryGate(s LeaseScenario) (info LeaseInfo, v *vstat.Violation, exact bool
 					L, float64(now.Sub(t1))/float64(L), err, describeEvents(fa.Events(), t0)), false
 			}
 		}
+	}
+	return info, nil, false
+}
+
+// tryfail: one Create issued by TryLock (or LockWithCtx, After=true) fails with a transient error of a drawn shape. The attempt
+// fails; nothing is held or left behind: another Locker can take and release the lock, and THE SAME Locker can acquire
+// afterwards (a failed attempt must not keep the Locker's local token).
+func runTryFail(s LeaseScenario) (info LeaseInfo, v *vstat.Violation, exact bool) {
+	L := time.Duration(s.LeaseMs) * time.Millisecond
+	inner := inmem.New()
+	fa, fb := gated.NewFaulty(inner), gated.NewFaulty(inner)
+	fa.CreateErr = transientErr(s.ErrKind)
+	fa.FailCreate(1, s.Applied)
+	pa, pb := newProvider(fa, L), newProvider(fb, L)
+	defer pa.Shutdown()
+	defer pb.Shutdown()
+	a, b := pa.NewLocker("lease"), pb.NewLocker("lease")
+	ctx := context.Background()
+	info.InjectedFailures = 1
+	got := false
+	if s.After {
+		cctx, cancel := context.WithTimeout(ctx, L/2)
+		got = a.LockWithCtx(cctx) == nil
+		cancel()
+	} else {
+		got = a.TryLock(ctx)
+	}
+	if got {
+		// legitimate only for LockWithCtx, which may try again after the failure
+		if !s.After {
+			return info, vstat.V("lease:trylock-true-after-error", "TryLock returned true although its only Create call failed with %v", fa.CreateErr), true
+		}
+		a.Unlock()
+	}
+	if s.Applied && !got {
+		// the Create was applied and only its reply was lost: an ownerless record may be there for one lease
+		time.Sleep(L + L/5)
+	}
+	if !b.TryLock(ctx) {
+		return info, vstat.V("lease:not-released", "lease %v: after an attempt whose Create failed (%v) another Locker's TryLock returns false", L, fa.CreateErr), true
+	}
+	b.Unlock()
+	done := make(chan bool, 1)
+	go func() { done <- a.TryLock(ctx) }()
+	select {
+	case ok := <-done:
+		if !ok {
+			return info, vstat.V("lease:cannot-reacquire", "lease %v: a TryLock/LockWithCtx of this Locker failed because its Create returned %v; the lock is free (another Locker has just taken and released it), yet TryLock of the same Locker returns false", L, fa.CreateErr), true
+		}
+		a.Unlock()
+	case <-time.After(5 * time.Second):
+		return info, vstat.V("lease:cannot-reacquire", "lease %v: TryLock of a Locker whose previous attempt failed with %v does not return", L, fa.CreateErr), true
 	}
 	return info, nil, false
 }
